@@ -96,8 +96,14 @@ def genshi_to_jev(ev):
     kind, data = ev[0], ev[1]
 
     def q(name):
+        # A QName *is* its string value; the pair form is [ns, local] for '{ns}local' with a
+        # non-empty namespace and ['', value] otherwise.  The namespace of QName('}x') (html.parser
+        # yields such attribute names) is the EMPTY string, not None: its value is '{}x', which is
+        # what the safe sets, `waiting_for` and Attrs.get compare -- never the local name 'x'.
         ns = getattr(name, 'namespace', None)
-        return [ns or '', getattr(name, 'localname', str(name))]
+        if ns:
+            return [str(ns), str(name.localname)]
+        return ['', str(name)]
     if kind is START:
         return ['S', q(data[0]), [[q(a), str(v)] for a, v in data[1]]]
     if kind is END:
@@ -449,6 +455,13 @@ def run_real(case):
 
 
 def oracle_case(case, res=None, real=None):
+    """the one judge of a case: the run, the search, the shrinker and --replay all come through
+    here, so a case is judged the same way everywhere (a case outside the ASSUMPTIONS is counted
+    and not judged)"""
+    if not in_domain(case):
+        if res is not None:
+            res.count('outside-assumptions')
+        return None
     kind = case['kind']
     fails = []
 
@@ -587,6 +600,28 @@ def model_requests(case, real):
         else:
             exp = [Atom('err'), Atom(real['exc'].split(':')[0])]
         out.append(('sanitize', proto.line(Atom('C06'), Atom('filter'), cfgw, [wire_ev(e) for e in real['inp']]), exp))
+        # is_safe_elem by itself, also under a configuration that holds the tag's own string value
+        # (so that the password rule -- which looks at QName.localname -- is reached for names with
+        # a namespace, an EMPTY namespace ('{}input') or braces too)
+        starts = [e for e in real['inp'] if e[0] == 'S']
+        odd = [e for e in starts if 'input' in e[1][1].lower() or '}' in qtext(e[1])]
+        for e in (odd or starts)[:1]:     # one element per case keeps the stream cheap
+            tag = jev_to_genshi(e, None)[1]
+            for extra in ((True,) if len(starts) % 2 else (False, True)):
+                cfg2 = case.get('cfg')
+                if extra:
+                    cfg2 = dict(cfg2 or {})
+                    st = dict(cfg2.get('safe_tags') or {})
+                    st['add'] = sorted(set(st.get('add', [])) | {qtext(e[1])})
+                    st['remove'] = sorted(set(st.get('remove', [])) - {qtext(e[1])})
+                    cfg2['safe_tags'] = st
+                san2, _r2 = make_sanitizer(cfg2)
+                try:
+                    expb = B(bool(san2.is_safe_elem(tag[0], tag[1])))
+                except Exception as ex:  # noqa
+                    expb = [Atom('err'), Atom(exc_name(ex))]
+                out.append(('is_safe_elem', proto.line(Atom('C06'), Atom('elem'), wire_cfg(cfg2), list(e[1]),
+                                                       [[list(a), v] for a, v in e[2]]), expb))
         if real['status'] == 'ok':
             r = real['r']
             for e in real['out']:
@@ -727,6 +762,17 @@ def count_branches(real, res):
             open_tags.pop()
         elif e[0] == 'PI' and ('>' in e[1] or '>' in e[2]):
             res.count('branch:pi-with-gt')
+        elif e[0] in ('SC', 'EC'):
+            res.count('branch:cdata-marker')
+        elif e[0] == 'DT':
+            res.count('branch:doctype-with-gt' if any(x and '>' in x for x in e[1:4]) else 'branch:doctype-plain')
+        if e[0] == 'S':
+            for nm in [e[1]] + [a for a, _v in e[2]]:
+                t = qtext(nm)
+                if '{' in t or '}' in t:
+                    res.count('branch:name-with-brace')
+                if not nm[0] and t.startswith('{}'):
+                    res.count('branch:name-in-empty-namespace')
     for an, n in kept.items():
         if an in r['uri_attrs']:
             res.count('branch:uri-attribute-kept', n)
@@ -850,7 +896,7 @@ def exhaustive_shard(arg):
 
 def run(ctx):
     nsh = 16
-    per = ctx.n(2000, 25000)
+    per = ctx.n(2000, 18000)
     res = Result()
     for r in pmap('harness.props.c06', 'shard', [(ctx.seed, i, per) for i in range(nsh)]):
         res.merge(r)
@@ -889,25 +935,18 @@ def in_domain(case):
             return False
         if case['kind'] != 'raw':
             return isinstance(case.get('text'), str)
-        depth = 0
         for e in case['events']:
             k = e[0]
             if k == 'T' and e[2]:
                 return False            # Markup TEXT is trusted by construction
-            if k == 'SC':
-                depth += 1
-            elif k == 'EC':
-                depth = max(0, depth - 1)   # a stray END_CDATA is harmless
-            elif depth and k != 'T':
-                return False            # a CDATA section holds text only
             if k == 'NS' and e[1] and not _PREFIX.match(e[1]):
                 return False            # namespace prefixes are XML names
-        return depth == 0
+        # START_CDATA / END_CDATA events are inside the domain in any arrangement (unclosed, stray,
+        # with elements between them): the repaired filter passes none of them on
+        return True
     except Exception:
         return False
 
 
 def replay(ctx, case):
-    if not in_domain(case):
-        return None
     return oracle_case(case)
